@@ -102,6 +102,9 @@ def run(ctx, rep):
     c07.w2b(ctx, tmp)
     c07.w6(F, tmp)          # captured padding bits are replayed exactly (non-zero padding is accepted input)
     c07.w7(F, tmp)          # tokens are written with the codes of their own block's header
+    c07.w9(F, tmp)          # padding is written where and as captured
+    from . import c03
+    c03.t9(F, tmp)          # single canonical-code construction on the reader side
     for o in tmp.obs:
         o.rule = "M6"
         rep.obs.append(o)
